@@ -425,6 +425,27 @@ def oracle_single(ck: core.Check) -> dict:
     return stats
 
 
+def oracle_scan(ck: core.Check) -> dict:
+    """Scan programs with states of rank 0-2 and scan inputs of rank 1-3 (distinct constant dims)."""
+    stats = {"programs": 0, "constructor_rejected": 0, "runs": 0, "runs_refused_by_runtime": 0, "vars_checked": 0}
+    for sc in P.SCAN_CASES:
+        case = dict(sc, kind="scan")
+        st = P.run_scan(case, ck.rng, SIZES, max_inst=ck.pick(3, 6))
+        stats["programs"] += 1
+        if st.get("rejected"):
+            stats["constructor_rejected"] += 1
+            stats.setdefault("rejections", []).append(st.get("error", ""))
+        stats["runs"] += st["runs"]
+        stats["runs_refused_by_runtime"] += st["refused"]
+        stats["vars_checked"] += st["checked"]
+        ck.count(("scan", json.dumps(sc)) if st["checked"] else None)
+        report(ck, st["fails"], case)
+    if stats["vars_checked"] == 0:
+        ck.broken("correspondence", "Scan programs not observable",
+                  f"none of the {stats['programs']} Scan programs could be built and run: {stats.get('rejections', [])[:2]}")
+    return stats
+
+
 def oracle_programs(ck: core.Check) -> dict:
     rng = ck.rng
     stats = {"programs": 0, "build_failed": 0, "runs": 0, "runs_refused_by_runtime": 0, "vars_checked": 0,
@@ -497,6 +518,7 @@ def run(ck: core.Check):
     # the model-free oracle runs whatever happened above
     ck.cov["oracle_single"] = _facet(ck, "single-operator oracle", oracle_single, ck)
     ck.log("single-operator oracle done")
+    ck.cov["oracle_scan"] = _facet(ck, "Scan oracle", oracle_scan, ck)
     ck.cov["oracle_programs"] = _facet(ck, "program oracle", oracle_programs, ck)
     ck.log("program oracle done")
     _facet(ck, "witness replay", P.replay_known, ck)
@@ -534,6 +556,8 @@ def replay(ck: core.Check, doc) -> bool:
         st = P.run_single(case, rng, SIZES, max_inst=8, extra_feeds=extra)
     elif case.get("kind") == "program":
         st = P.run_program(case, SIZES, max_inst=6, extra_feeds=extra)
+    elif case.get("kind") == "scan":
+        st = P.run_scan(case, rng, SIZES, max_inst=6, extra_feeds=extra)
     elif case.get("kind") == "witness":
         st = P.run_witness(case)
     elif case.get("kind") == "nontensor":
